@@ -11,7 +11,7 @@ from .. import astutil as A
 from ..fa import FA
 from ..loader import AnalysisError
 from .cache_model import CacheModel, self_attr, branch_filter, both, safe_expand, value_sources, every_path_through
-from .effects import reach_effects, storage_backend_classes, QUERY_METHODS
+from .effects import reach_effects, storage_backend_classes, QUERY_METHODS, effective_function
 from .keys import check_keying
 from . import c06
 
@@ -106,6 +106,17 @@ def _prefix_tests(fa: FA, ck=None):
                             and isinstance(b, ast.Constant) and b.value == 0 and type(b.value) is int:
                         hit = (a.func.value, a.args[0])
                         break
+            if hit is None and isinstance(n, ast.Call):
+                # the same test as a callable object: operator.methodcaller('startswith', P) applied to S, or handed to
+                # filter(pred, keys) (then every element of `keys` is the subject)
+                mc = _startswith_caller(fa, n.func, at if at is not None else n)
+                if mc is not None and len(n.args) == 1 and not n.keywords:
+                    hit = (n.args[0], mc)
+                elif isinstance(n.func, ast.Name) and n.func.id == "filter" and len(n.args) == 2 and not n.keywords:
+                    mc = _startswith_caller(fa, n.args[0], at if at is not None else n)
+                    if mc is not None:
+                        out.append((n, None, mc, at if at is not None else n, n.args[1]))
+                        continue
             if hit is not None:
                 out.append((n, hit[0], hit[1], at if at is not None else n, _binder_iter(fa, hit[0], pm)))
         return out
@@ -114,6 +125,11 @@ def _prefix_tests(fa: FA, ck=None):
     nodes += [x for lam in list(nodes) if isinstance(lam, ast.Lambda) for x in ast.walk(lam.body)]
     out = scan(nodes, None, None)
     cls = fa.fi.cls
+    # ... and in what a single-return function nested in this one returns for the arguments it is called with here
+    for c in [n for n in nodes if isinstance(n, ast.Call) and isinstance(n.func, ast.Name) and n.func.id in fa.fi.nested]:
+        body = _inline_nested(fa, c)
+        if body is not None:
+            out += scan(list(ast.walk(body)), c, A.parent_map(body))
     if ck is not None and cls is not None:
         for c in [n for n in nodes if isinstance(n, ast.Call)]:
             f = c.func
@@ -124,6 +140,226 @@ def _prefix_tests(fa: FA, ck=None):
                     sub = list(ast.walk(body))
                     out += scan(sub, c, A.parent_map(body))
     return out
+
+
+def _startswith_caller(fa: FA, f, at):
+    """`f` (through temporaries) is operator.methodcaller('startswith', P) -> P"""
+    e = safe_expand(fa, f, at) if isinstance(f, ast.Name) else f
+    if isinstance(e, ast.Call) and A.call_attr(e) == "methodcaller" and len(e.args) == 2 and not e.keywords and A.const_str(e.args[0]) == "startswith":
+        return e.args[1]
+    return None
+
+
+def _inline_nested(fa: FA, call):
+    """what a function nested in `fa` returns for the arguments of `call` (single return, no other statement with an effect:
+    its body is assignments and the return), its own temporaries expanded; None when it is not of that shape"""
+    import copy
+    sub = fa.fi.nested.get(call.func.id)
+    if sub is None or sub.node is None:
+        return None
+    body = [st for st in sub.node.body if not (isinstance(st, ast.Expr) and isinstance(st.value, ast.Constant))]
+    rets = [st for st in A.all_stmts(sub.node) if isinstance(st, ast.Return) and st.value is not None]
+    if len(rets) != 1 or not body or body[-1] is not rets[0] or any(not isinstance(st, (ast.Assign, ast.AnnAssign)) for st in body[:-1]):
+        return None
+    try:
+        e = FA(fa.ck, sub).expand(rets[0].value)
+    except AnalysisError:
+        return None
+    bound = _bind(call, sub.params)
+    if set(sub.params) - set(bound):
+        return None
+
+    class S(ast.NodeTransformer):
+        def visit_Name(self, x_):
+            return copy.deepcopy(bound[x_.id]) if x_.id in bound and isinstance(x_.ctx, ast.Load) else x_
+
+    return S().visit(copy.deepcopy(e))
+
+
+# ---- "operation X is applied to layer F": whatever does the dispatching ------------------------------------------------
+def _splice(fa: FA, args, at):
+    """positional arguments with `*<tuple>` spread out (the tuple through temporaries)"""
+    out = []
+    for a in args:
+        if isinstance(a, ast.Starred):
+            v = safe_expand(fa, a.value, at)
+            if isinstance(v, (ast.Tuple, ast.List)) and not any(isinstance(x, ast.Starred) for x in v.elts):
+                out += list(v.elts)
+                continue
+        out.append(a)
+    return out
+
+
+def _operation_sites(fa: FA, name):
+    """Where the method `name` is applied to some receiver, by what is computed: `R.name(args)`; a bound method taken first
+    (`f = R.name ... f(args)`); `getattr(R, 'name')(args)` with the name through temporaries; `operator.methodcaller('name',
+    args)(R)`.  -> [(call node, receiver expression, positional arguments, keyword arguments)]"""
+    out = []
+    for c in fa.calls():
+        if not fa.nodes(c):
+            continue
+        f = c.func
+        if isinstance(f, ast.Attribute) and f.attr == name:
+            out.append((c, f.value, _splice(fa, c.args, c), list(c.keywords)))
+            continue
+        fx = safe_expand(fa, f, c) if isinstance(f, ast.Name) else f
+        if isinstance(fx, ast.Attribute) and fx.attr == name:
+            out.append((c, fx.value, _splice(fa, c.args, c), list(c.keywords)))
+        elif isinstance(fx, ast.Call) and isinstance(fx.func, ast.Name) and fx.func.id == "getattr" and len(fx.args) == 2 and not fx.keywords \
+                and A.const_str(safe_expand(fa, fx.args[1], c)) == name:
+            out.append((c, fx.args[0], _splice(fa, c.args, c), list(c.keywords)))
+        elif isinstance(fx, ast.Call) and A.call_attr(fx) == "methodcaller" and fx.args and A.const_str(safe_expand(fa, fx.args[0], c)) == name \
+                and len(c.args) == 1 and not c.keywords and not isinstance(c.args[0], ast.Starred):
+            out.append((c, c.args[0], _splice(fa, fx.args[1:], c), list(fx.keywords)))
+    return out
+
+
+def _implied(fa: FA, t, n, positive, excuse) -> bool:
+    """does `t` evaluating to `positive` imply a literal accepted by `excuse`? (as cache_model.branch_filter decides it)"""
+    if isinstance(t, ast.UnaryOp) and isinstance(t.op, ast.Not):
+        return _implied(fa, t.operand, n, not positive, excuse)
+    if isinstance(t, ast.BoolOp):
+        conj = (isinstance(t.op, ast.And) and positive) or (isinstance(t.op, ast.Or) and not positive)
+        parts = [_implied(fa, v, n, positive, excuse) for v in t.values]
+        return any(parts) if conj else all(parts)
+    try:
+        (txt, pol) = fa._literal(t, n, positive)
+    except AnalysisError:
+        return False
+    return bool(excuse(txt, pol))
+
+
+def _inline_properties(ck, cls, e, depth=0):
+    """`self.<p>` with p a single-return property of the class (or a base) replaced by what the property returns"""
+    import copy
+    if cls is None:
+        return e
+
+    class T(ast.NodeTransformer):
+        def visit_Attribute(self, n_):
+            self.generic_visit(n_)
+            if depth < 3 and isinstance(n_.value, ast.Name) and n_.value.id == "self" and isinstance(n_.ctx, ast.Load):
+                m = ck.repo.find_method(cls, n_.attr)
+                if m is not None and m.node is not None and "property" in m.decorators and len(m.params) == 1:
+                    rets = [s_ for s_ in A.all_stmts(m.node) if isinstance(s_, ast.Return) and s_.value is not None]
+                    if len(rets) == 1:
+                        try:
+                            body = FA(ck, m).expand(rets[0].value)
+                        except AnalysisError:
+                            return n_
+                        body = copy.deepcopy(body)
+                        if m.params[0] != "self":
+                            for x_ in ast.walk(body):
+                                if isinstance(x_, ast.Name) and x_.id == m.params[0]:
+                                    x_.id = "self"
+                        return _inline_properties(ck, cls, body, depth + 1)
+            return n_
+
+    return T().visit(copy.deepcopy(e))
+
+
+def _layer_value(ck, fa: FA, e, at, field, excuse) -> bool:
+    """Is the value of `e` the layer `self.<field>` -- in every case, or (given `excuse`, the literals that say the layer does
+    not exist) in every case in which the layer exists?  Decided through temporaries, properties of the class, conditional
+    expressions (`cache if cache else STAND_IN`) and `cache or STAND_IN`."""
+    want = "self." + field
+    x = _inline_properties(ck, fa.fi.cls, safe_expand(fa, e, at))
+    ids = fa.nodes(at)
+
+    def val(v):
+        if A.norm(v) == want:
+            return True
+        if isinstance(v, ast.IfExp) and ids:
+            return all(val(arm) or (excuse is not None and _implied(fa, v.test, ids[0], pol, excuse)) for (arm, pol) in ((v.body, True), (v.orelse, False)))
+        if isinstance(v, ast.BoolOp) and isinstance(v.op, ast.Or) and excuse is not None and ids and val(v.values[0]):
+            # `L or other`: L whenever L is truthy
+            return _implied(fa, v.values[0], ids[0], False, excuse)
+        return False
+    return val(x)
+
+
+def _every_iteration(fa: FA, lp, ids) -> bool:
+    """every iteration of the loop `lp` passes one of the CFG nodes `ids`, and the loop visits every element (no break / return)"""
+    if not ids or any(isinstance(n, (ast.Break, ast.Return)) for st in lp.body for n in ast.walk(st)):
+        return False
+    for h in fa.nodes(lp):
+        r = fa.cfg.reach([h], removed=ids, edge_ok=lambda s_, d_, l_, h=h: not (s_ == h and l_ == "F"), include_start=False)
+        for i in r:
+            nd = fa.cfg.node(i)
+            if i == h or i == fa.cfg.exit or (nd.ast is not None and not fa.inside(nd.ast, lp)):
+                return False
+    return True
+
+
+def _iterates_layer(ck, fa: FA, lp, field, excuse) -> bool:
+    """Is `self.<field>` among what the loop `lp` runs over (whenever the layer exists)?  The iterable is a tuple / list
+    written out, a local list (its initial value, per arm of a conditional expression, plus what is appended on every way to
+    the loop; nothing removed), or what a generator / list-returning method of the class hands out: for a generator, every
+    way through it yields the layer, except on branch edges that say the layer does not exist."""
+    it = lp.iter
+    while isinstance(it, ast.Call) and isinstance(it.func, ast.Name) and it.func.id in _SEQ_WRAPPERS and len(it.args) == 1 and it.func.id not in ("set", "reversed", "sorted"):
+        it = it.args[0]
+    heads = fa.nodes(lp)
+    if not heads:
+        return False
+    appended = []
+    if isinstance(it, ast.Name):
+        nm = it.id
+        for c in fa.calls():
+            r_ = A.call_recv(c)
+            if isinstance(r_, ast.Name) and r_.id == nm:
+                if A.call_attr(c) in ("remove", "pop", "clear", "reverse", "sort", "__delitem__"):
+                    return False
+                if A.call_attr(c) in ("append",) and len(c.args) == 1 and fa.nodes(c) and all(fa.cfg.must_pass(fa.nodes(c), h) for h in heads):
+                    appended.append((c.args[0], c))
+        if any(isinstance(t, ast.Subscript) and isinstance(t.value, ast.Name) and t.value.id == nm for st in fa.stmts(ast.Delete) for t in st.targets):
+            return False
+    if any(_layer_value(ck, fa, e, c, field, excuse) for (e, c) in appended):
+        return True
+    x = safe_expand(fa, it, lp)
+    if fa.fi.cls is not None:
+        # a generator of the class: every way through it yields the layer
+        if isinstance(x, ast.Call) and isinstance(x.func, ast.Attribute) and isinstance(x.func.value, ast.Name) and x.func.value.id == "self" \
+                and not x.args and not x.keywords:
+            m = ck.repo.find_method(fa.fi.cls, x.func.attr)
+            if m is not None and m.node is not None and any(isinstance(n, (ast.Yield, ast.YieldFrom)) for n in A.walk_body(m.node)):
+                g = FA(ck, m)
+                ys = [st for st in g.stmts(ast.Expr) if isinstance(st.value, ast.Yield) and st.value.value is not None
+                      and _layer_value(ck, g, st.value.value, st, field, excuse)]
+                nodes = g.nodes_all(ys)
+                return bool(nodes) and g.cfg.exit not in g.cfg.reach([g.cfg.entry], removed=nodes, edge_ok=branch_filter(g, excuse) if excuse is not None else None)
+        x = _inline_own_builders(ck, fa.fi.cls, x)
+
+    def seq(v):
+        if isinstance(v, (ast.Tuple, ast.List)):
+            return any(not isinstance(el, ast.Starred) and _layer_value(ck, fa, el, lp, field, excuse) for el in v.elts)
+        if isinstance(v, ast.IfExp):
+            return all(seq(arm) or (excuse is not None and _implied(fa, v.test, heads[0], pol, excuse)) for (arm, pol) in ((v.body, True), (v.orelse, False)))
+        if isinstance(v, ast.BinOp) and isinstance(v.op, ast.Add):
+            return seq(v.left) or seq(v.right)
+        return False
+    return seq(x)
+
+
+def _layer_application_nodes(ck, fa: FA, name, field, excuse):
+    """CFG nodes that stand for "operation `name` is applied to the layer self.<field>" (when it exists), with the sites
+    -> (node ids, [(call, args, keywords)])"""
+    nodes, sites = [], []
+    for (c, recv, args, kws) in _operation_sites(fa, name):
+        if not fa.unconditional(c):
+            continue
+        if _layer_value(ck, fa, recv, c, field, excuse):
+            nodes += fa.nodes(c)
+            sites.append((c, args, kws))
+            continue
+        if isinstance(recv, ast.Name):
+            lp = fa.enclosing(c, ast.For)
+            while lp is not None and not (isinstance(lp.target, ast.Name) and lp.target.id == recv.id):
+                lp = fa.enclosing(lp, ast.For)
+            if lp is not None and _every_iteration(fa, lp, fa.nodes(c)) and _iterates_layer(ck, fa, lp, field, excuse):
+                nodes += fa.nodes(lp)
+                sites.append((c, args, kws))
+    return nodes, sites
 
 
 def _forget_by_scan(ck, R, cm, ff, sw, sep):
@@ -141,7 +377,7 @@ def _forget_by_scan(ck, R, cm, ff, sw, sep):
               ff.where(at))
         # which table do the tested keys come from: the iterable that binds the tested variable (comprehension or loop)
         if it is not None:
-            for a in A.attrs_in(it):
+            for a in A.attrs_in(safe_expand(ff, it, at)):
                 slots.add(a)
     # both refs and cache are filtered
     need = {cm.map} | ({cm.refs} if cm.refs else set())
@@ -158,7 +394,7 @@ def _forget_by_index(ck, R, cm, ff):
     for loop in ff.stmts(ast.For):
         for x in ast.walk(loop.iter):
             f = self_attr(x)
-            if f and f not in (cm.map, cm.refs, cm.queue, cm.counter, cm.budget):
+            if f and f not in (cm.map, cm.refs, cm.queue, cm.counter, cm.budget) and f not in cm.cls.methods:
                 idx = f
     if idx is None:
         raise AnalysisError("MemoryCache.forget_function selects its keys neither by a startswith() scan nor from an index slot (unsupported idiom)")
@@ -843,20 +1079,27 @@ def check_forget_scope(ck, cm: CacheModel):
           "forget_everything does not delete the whole metadata root", f3.where())
     # (c) backend base mirrors into cache and metadata source
     for name in ("forget_call", "forget_function", "forget_everything"):
-        fa = FA(ck, BACKEND_BASE + "." + name)
-        md = _field_calls(fa, "_metadata_source", name)
-        okm = bool(md) and fa.cfg.must_pass(fa.nodes_all(md), fa.cfg.exit)
+        # the statements that run when the method is called (a new decorator's wrapper applied, a body that only delegates
+        # to a new helper replaced by the helper's); the operation is applied to a layer by whatever dispatches it: a plain
+        # call, a bound method, getattr(layer, name), operator.methodcaller(name, ..), a loop over the layers
+        fa = FA(ck, effective_function(ck, ck.fn(BACKEND_BASE + "." + name)))
+        mdn, md = _layer_application_nodes(ck, fa, name, "_metadata_source", None)
+        okm = bool(mdn) and fa.cfg.must_pass(mdn, fa.cfg.exit)
         ck.ob(R, fa.key(None, "metadata-source"), okm, "metadata source %s on every path" % name if okm else
               "%s does not reach self._metadata_source.%s on every normal path" % (name, name), fa.where())
-        cc = _field_calls(fa, "_memory_cache", name)
+        ccn, cc = _layer_application_nodes(ck, fa, name, "_memory_cache", _no_cache)
         # a path may skip the cache only on a branch edge that says there is no cache
-        okc = bool(cc) and fa.cfg.exit not in fa.cfg.reach([fa.cfg.entry], removed=fa.nodes_all(cc), edge_ok=branch_filter(fa, _no_cache))
+        okc = bool(ccn) and fa.cfg.exit not in fa.cfg.reach([fa.cfg.entry], removed=ccn, edge_ok=branch_filter(fa, _no_cache))
         ck.ob(R, fa.key(None, "cache"), okc, "cache %s whenever a cache exists" % name if okc else
               "%s can finish without self._memory_cache.%s although a cache exists: forgotten entries stay served from memory" % (name, name), fa.where())
         # arguments forwarded unchanged
-        for c in md + cc:
+        seen_sites = set()
+        for (c, args_, kws_) in md + cc:
+            if id(c) in seen_sites:
+                continue
+            seen_sites.add(id(c))
             params = [p for p in fa.fi.params if p != "self"]
-            okA = [_xt(fa, a, c) for a in c.args] + [_xt(fa, k.value, c) for k in c.keywords] == params
+            okA = [_xt(fa, a, c) for a in args_] + [_xt(fa, k.value, c) for k in kws_] == params
             ck.ob(R, fa.key(c, "args"), okA, "scope argument forwarded unchanged" if okA else
                   "the scope argument is not forwarded unchanged", fa.where(c))
     # (d) memory backend tables
